@@ -418,6 +418,16 @@ def standin_sum(tier, seed):
         if got != lack:
             viol.append({'id': '%s-missing' % libname, 'input': {'library': libname, 'groups': {str(k): v for k, v in m.items()}},
                          'observed': got, 'expected': lack})
+    # synthetic library: two DIFFERENT descriptors that carry identical data (and a third one), each counted in its own right
+    from pgradd.GroupAdd.Library import GroupLibrary
+    from pgradd.ThermoChem import ThermochemGroup
+    tab = {300.: 4.0, 500.: 5.5, 800.: 7.0}
+    with real.quiet():
+        syn = GroupLibrary(None, {'A': {'thermochem': ThermochemGroup(-10., 25., dict(tab), 298.15, (298., 1000.))},
+                                  'B': {'thermochem': ThermochemGroup(-10., 25., dict(tab), 298.15, (298., 1000.))},
+                                  'C': {'thermochem': ThermochemGroup(3., 1., dict(tab), 298.15, (298., 1000.))}})
+    for mp in ({'A': 1, 'B': 2, 'C': 1}, {'A': 1, 'B': 1}, {'B': 0.5, 'A': -1, 'C': 2}):
+        check('synthetic-twins', syn, mp, 'twins')
     return {'name': 'estimate-is-weighted-sum', 'bound': 'unit vectors of all groups of 9 libraries + %d random mappings per library x up to 4 temperatures x 4 properties' % (2 * nrand),
             'evaluations': n, 'distinct_nontrivial': len(distinct), 'violations': viol, 'samples': samples,
             'rule': 'a case is a (library, mapping); distinct by mapping; all are non-trivial (at least one group with data)'}
